@@ -1001,6 +1001,19 @@ impl DicomTime {
     }
 }
 
+/// Encode a time zone offset as `&ZZXX` (sign, hours and minutes),
+/// the only form admitted in a DICOM date-time.
+/// `FixedOffset`'s own text form appends the seconds when they are not zero.
+fn encode_time_zone(offset: FixedOffset) -> String {
+    let seconds = offset.local_minus_utc();
+    let (sign, seconds) = if seconds < 0 {
+        ('-', -seconds)
+    } else {
+        ('+', seconds)
+    };
+    format!("{}{:02}{:02}", sign, seconds / 3600, seconds / 60 % 60)
+}
+
 impl DicomDateTime {
     /**
      * Retrieves a dicom encoded string representation of the value.
@@ -1012,16 +1025,12 @@ impl DicomDateTime {
                     "{}{}{}",
                     self.date.to_encoded(),
                     time.to_encoded(),
-                    offset.to_string().replace(':', "")
+                    encode_time_zone(offset)
                 ),
                 None => format!("{}{}", self.date.to_encoded(), time.to_encoded()),
             },
             None => match self.time_zone {
-                Some(offset) => format!(
-                    "{}{}",
-                    self.date.to_encoded(),
-                    offset.to_string().replace(':', "")
-                ),
+                Some(offset) => format!("{}{}", self.date.to_encoded(), encode_time_zone(offset)),
                 None => self.date.to_encoded().to_string(),
             },
         }
